@@ -27,7 +27,7 @@ from ._admmaux import (
     MatrixSubproblemSolver,
     SubproblemSolver,
 )
-from ._common import Optimizer
+from ._common import Optimizer, _all_finite
 
 
 class ADMM(Optimizer):
@@ -160,7 +160,7 @@ class ADMM(Optimizer):
             + self.z_list
             + self.u_list
         ):
-            if not snp.all(snp.isfinite(v)):
+            if not _all_finite(v):
                 return False
         return True
 
